@@ -146,6 +146,12 @@ def axioms():
                           patterns=[drop(s, n)]))
     ax('drop_at', ForAll([s, n, i], Implies(And(0 <= n, 0 <= i, i < slen(s) - n), at(drop(s, n), i) == at(s, i + n)),
                          patterns=[at(drop(s, n), i)]))
+    # reverse direction (an element of s seen through an existing slice of s): lets a quantified fact about s[a:b] be
+    # instantiated from an element of s
+    ax('take_at_rev', ForAll([s, n, i], Implies(And(0 <= i, i < n, n <= slen(s)), at(take(s, n), i) == at(s, i)),
+                             patterns=[MultiPattern(take(s, n), at(s, i))]))
+    ax('drop_at_rev', ForAll([s, n, i], Implies(And(0 <= n, n <= i, i < slen(s)), at(drop(s, n), i - n) == at(s, i)),
+                             patterns=[MultiPattern(drop(s, n), at(s, i))]))
     ax('drop_mem', ForAll([s, n, x], Implies(And(0 <= n, n <= slen(s), mem(drop(s, n), x)), mem(s, x)),
                           patterns=[mem(drop(s, n), x)]))
     ax('drop0', ForAll([s], Implies(tag(s) == TAG_SEQ, drop(s, 0) == s), patterns=[drop(s, 0)]))
